@@ -44,6 +44,10 @@ def check(ctx):
     ctx.rule("C05-J", "a row that recorded its junctions on the rules above/below is always drawn: append_columns_with_borders "
              "has a single normal exit, after the row's lines and the bottom rule were added")
     ctx.guard("C05-J", rule_j)
+    ctx.rule("C05-K", "a row is skipped exactly when none of its cells would contribute a line: Renderer::empty() of a cell renderer is "
+             "`no line yet` and `the open wrapped block (if any) has no content` (WrappedBlock::is_empty) — a cell holding only "
+             "white space opens a block that flushes to nothing, and a row of such cells drawn anyway is two rules with nothing between")
+    ctx.guard("C05-K", rule_k)
     # bars stand at the same positions in every row only if every row walks the columns the same way: the column
     # cursors advance by the cell's colspan on every path (rule shared with C06-A)
     from . import C06
@@ -248,6 +252,22 @@ def _rule_c_iterator_form(ctx, F, b, fname, join, names):
     ctx.check(bool(b.calls(lambda cd, t: callee_method(t) == "enumerate")) and
               not b.calls(lambda cd, t: callee_method(t) in ("rev", "skip", "step_by", "take", "skip_while", "take_while")), "C05-C",
               fname + ":idx-from-enumerate", b.span, b.id, "")
+
+
+def rule_k(ctx):
+    F = ctx.facts
+    b = F.one(RTRAIT + "empty")
+    at = b.atoms({"c": {"l": 0, "p": []}})
+    wb = has_call(at, "WrappedBlock::<T>::is_empty") and has_field(at, SUBR, "wrapping")
+    ctx.check(wb, "C05-K", "empty():consults-the-open-block", b.span, b.id,
+              "SubRenderer::empty() does not ask the open wrapped block whether it has content: a cell with only white space "
+              "counts as non-empty although it renders no line")
+    lines = [bb for bb, t in b.calls(lambda cd, t: callee_method(t) == "is_empty" and has_field(b.atoms(t["args"][0]), SUBR, "lines"))]
+    ctx.check(len(lines) == 1, "C05-K", "empty():consults-lines", b.span, b.id, "")
+    # and the row renderer skips on it
+    rr = F.one("render_table_row")
+    users = [c for _x, c in transitive_closures(F, rr)] + [rr]
+    ctx.check(any(u.calls(lambda cd, t: ends(cd, RTRAIT + "empty")) for u in users), "C05-K", "render_table_row:skips-on-empty()", rr.span, rr.id, "")
 
 
 def norm(s):
